@@ -326,6 +326,20 @@ func stringsOver(alpha string, maxLen int) []string {
 
 func c17(r *ev.Run) {
 	r.Scenario("helper", func(raw []byte) (string, string) { return helperCase(unjson[c17Case](raw)) })
+	{
+		cs := []c17Case{{Helper: "To8ByteBigEndian", N: 0x0102030405060708}, {Helper: "To8ByteBigEndian", N: 1<<64 - 1}}
+		for _, s := range []string{"0", "1", "255", "256", "65536", "4294967296", "18446744073709551615", "18446744073709551616", "010", "-1", "1e3", ""} {
+			cs = append(cs, c17Case{Helper: "ParseDecimalToBigEndian8", Args: []string{s}}, c17Case{Helper: "ParseDecimal64BigEndian", Args: []string{s}})
+		}
+		for _, s := range []string{"132d0b6", "0", "ffffffffffffffff", "zz", "", "0132D0B6"} {
+			cs = append(cs, c17Case{Helper: "ParseHexTimestamp", Args: []string{s}}, c17Case{Helper: "LeftPadHex", Args: []string{s}, N: 16}, c17Case{Helper: "MustHexPadLeft", Args: []string{s}, N: 8})
+		}
+		for _, q := range []string{"0", "7", "12345678", "99999999", "4096", "1234567890", "123456789012345678901234567890", "12a4", "-1"} {
+			cs = append(cs, c17Case{Helper: "ParseDecimalChallengeRFC6287", Args: []string{q}})
+		}
+		cs = append(cs, c17Case{Helper: "HexInputToOCRA", Args: []string{"0000000000000001", "3132333435363738", "7110eda4d09e062aa5e4a390b0a572ac0d2c0220", "abcdef", "000000000132d0b6"}}, c17Case{Helper: "HexInputToOCRA", Args: []string{"", "a98ac7", "", "", ""}}, c17Case{Helper: "HexInputToOCRA", Args: []string{"zz", "a98ac7", "", "", ""}})
+		afterWarmups(r, "helper-after-other-operations", cs, helperCase)
+	}
 	if ReplayOnly {
 		return
 	}
@@ -348,13 +362,17 @@ func c17(r *ev.Run) {
 			cases = append(cases, c17Case{Helper: h, Args: []string{strings.Repeat("0", int(v%300)) + fmt.Sprint(v)}})
 		}
 	}
-	decStrs := stringsOver("0123456789+- a", 4)
+	decLen, hexLen, qDigits := 4, 3, 5
+	if r.Thorough() {
+		decLen, hexLen, qDigits = 5, 5, 6
+	}
+	decStrs := stringsOver("0123456789+- a_xX.", decLen)
 	decStrs = append(decStrs, "18446744073709551614", "18446744073709551615", "18446744073709551616", "18446744073709551625", "99999999999999999999", "100000000000000000000", "184467440737095516150",
 		"-1", "-0", "+0", "1e3", "0x10", "1_000", "１２", "٣", "1\n", "\t1", "1.0", strings.Repeat("0", 300), strings.Repeat("0", 299)+"7", strings.Repeat("9", 300))
 	for _, s := range decStrs {
 		cases = append(cases, c17Case{Helper: "ParseDecimalToBigEndian8", Args: []string{s}}, c17Case{Helper: "ParseDecimal64BigEndian", Args: []string{s}})
 	}
-	hexStrs := stringsOver("09aFg", 3)
+	hexStrs := stringsOver("09aFgx ", hexLen)
 	for l := 0; l <= 40; l++ {
 		hexStrs = append(hexStrs, strings.Repeat("c", l), strings.Repeat("1", l)+"F")
 	}
@@ -391,7 +409,7 @@ func c17(r *ev.Run) {
 		}
 	}
 	// decimal questions
-	for d := 1; d <= 5; d++ {
+	for d := 1; d <= qDigits; d++ {
 		for v := 0; v < int(ref.Pow10(d)); v++ {
 			cases = append(cases, c17Case{Helper: "ParseDecimalChallengeRFC6287", Args: []string{fmt.Sprintf("%0*d", d, v)}})
 		}
@@ -469,7 +487,7 @@ func c17(r *ev.Run) {
 	r.Sample(c17Case{Helper: "ParseDecimalChallengeRFC6287", Args: []string{"4095"}})
 	r.Sample(c17Case{Helper: "question-e2e", Args: []string{"OCRA-1:HOTP-SHA1-6:QN08", "11111111"}})
 	r.Sample(c17Case{Helper: "HexInputToOCRA", Args: []string{"0000000000000001", "zz", "", "abcdef", "ff"}})
-	r.Rule("every helper on every text of its alphabet (all decimal strings of length <= 4 over {0-9,+,-,space,a}, all hex strings <= 3 over {0,9,a,F,g}, lengths 0..40 x widths 0..40, all 3^5 valid/invalid/empty field combinations x 2 contents, every decimal question of 1..5 digits, patterned questions of 6..64 digits incl. 16^k and 16^k +- 1) vs independent encoders (math/big, fmt, encoding/binary); end to end through GenerateOCRA for every registered numeric suite and hand-built numeric suites of every hash x digits 4..10; distinct = distinct (helper, outcome) pairs")
+	r.Rule("every helper on every text of its alphabet (all decimal strings of length <= 4 (thorough 5) over {0-9,+,-,space,a,_,x,X,.}, all hex strings <= 3 (thorough 5) over {0,9,a,F,g,x,space}, lengths 0..40 x widths 0..40, all 3^5 valid/invalid/empty field combinations x 2 contents, every decimal question of 1..5 (thorough 6) digits, patterned questions of 6..64 digits incl. 16^k and 16^k +- 1) vs independent encoders (math/big, fmt, encoding/binary); end to end through GenerateOCRA for every registered numeric suite and hand-built numeric suites of every hash x digits 4..10; distinct = distinct (helper, outcome) pairs")
 	r.Assume("a leading '+' in decimal text is not decided (documentation silent, Go parsers differ); hex timestamps longer than 16 digits and questions beyond 256 hex digits are outside the property")
 }
 
